@@ -7,7 +7,10 @@ x deformation x method x label).  Everything found under <sandbox>/inputs is rea
 with the real reader `panqec.simulation.read_input_json`; the simulations it builds are
 compared, as a multiset of (code class, size, noise direction, error rate, decoder,
 deformation), with sizes x bias ratios x error rates computed here from the command
-line strings with exact decimal/rational arithmetic.
+line strings with exact decimal/rational arithmetic.  The deformation axis is class
+specific (None plus every name the class offers); the noise model read back must carry
+exactly the requested name and be usable on its code (probability_distribution does not
+raise).  Two of the error-rate specifications start at a rate of exactly 0.
 
 Part 'range': `panqec.cli.read_range_input` on every (min, max, step) of a decimal grid
 (and the comma-list / single-value forms), compared with the exact decimal progression.
@@ -19,8 +22,19 @@ import json
 import os
 import shutil
 import tempfile
+import warnings
 from decimal import Decimal
 from fractions import Fraction
+
+# The runner forks one child per case item from a parent that has imported this module: importing the
+# heavy modules here (panqec.cli alone is ~1.7 s) lets every child inherit them instead of re-importing.
+with warnings.catch_warnings():
+    warnings.simplefilter('ignore')
+    import numpy  # noqa: F401
+    import click.testing  # noqa: F401
+    import panqec.cli  # noqa: F401
+    import panqec.config  # noqa: F401
+    import panqec.simulation  # noqa: F401
 
 PROPERTY = 'C19'
 LEVEL = 'exploration'
@@ -37,11 +51,12 @@ LEVEL_NOTE = ('Trusted: click CliRunner invoking the command as the console entr
               'arithmetic for the expected grid; the public attributes code.size, error_model.direction, '
               'error_model.params, simulation.error_rate(s)/decoder(s) as observables; the registry name->class map '
               '(that is C13: a simulation is expected to hold CODES[name] / DECODERS[name]). Not covered: what the '
-              'simulations do when run (C11/C12), sizes given with fewer than the code\'s dimensions, eta values '
-              'other than the five lists, steps off the decimal grid.')
+              'simulations do when run (C11/C12), eta values other than the listed eta lists, deformation names a class does '
+              'not offer, steps off the decimal grid.')
 RULE = ('part generate: complete product of (code class, size list, compatible decoder) x bias x eta list x prob spec x '
-        'deformation x method x label; one evaluation = one real generate-input invocation in its own sandbox plus '
-        'reading back every file it wrote; non-trivial when the requested grid has more than one point '
+        'deformation (None + every name the class offers) x method x label; one evaluation = one real generate-input '
+        'invocation in its own sandbox plus reading back every file it wrote (each noise model read back is also '
+        'evaluated once on its code); non-trivial when the requested grid has more than one point '
         '(sizes*ratios*rates > 1) and at least one file was written; distinct = distinct command line. '
         'part range: all (min, max, step) with min, max multiples of step, 0 <= min < max <= 0.6, plus comma-list and '
         'single-value forms; one evaluation = one read_range_input call; non-trivial when the binary accumulation '
@@ -49,8 +64,9 @@ RULE = ('part generate: complete product of (code class, size list, compatible d
         'sensitive) - measured per specification; distinct = distinct specification string.')
 ASSUMPTIONS = [
     'the registry maps a class name to the class of that name (C13); a simulation is expected to hold CODES[name]',
-    'deformation XZZX is only requested for code classes that offer an XZZX deformation (for the others the box '
-    'holds deformation None only: a deformation the class lacks is a user error the reader may reject)',
+    'a deformation name is only requested for code classes that offer it (class attribute deformation_names); a '
+    'name the class lacks is a user error the reader may reject, so it is outside the box',
+    'an error rate of exactly 0 is a legitimate grid point (the default --prob is 0:0.6:0.005)',
     'a decoder is only requested for code classes it lists in allowed_codes (or that lists none)',
     'every file under <data_dir>/inputs after the command returns is an input specification of that invocation',
 ]
@@ -60,8 +76,18 @@ DIM2 = ['Toric2DCode', 'Planar2DCode', 'RotatedPlanar2DCode', 'Color666PlanarCod
 # 3-D classes whose size family (DESIGN §3) contains both 2x3x4 and 3x3x3
 DIM3 = ['Toric3DCode', 'Planar3DCode', 'RotatedPlanar3DCode', 'XCubeCode', 'RhombicPlanarCode',
         'HollowPlanar3DCode', 'HollowRhombicCode']
+# 3-D classes with their own size list (family: even lengths only)
+DIM3_OWN_SIZES = {'RhombicToricCode': ['2x2x2,4x2x2']}
 HAS_XZZX = {'Toric2DCode', 'Planar2DCode', 'RotatedPlanar2DCode', 'Toric3DCode', 'Planar3DCode',
             'RotatedPlanar3DCode', 'XCubeCode'}
+# the deformation names every class documents (a priori); requested only while the class still offers them
+CLASS_DEFORMATIONS = {
+    'Toric2DCode': ['XZZX', 'XY'], 'Planar2DCode': ['XZZX', 'XY'], 'RotatedPlanar2DCode': ['XZZX', 'XY'],
+    'Color666PlanarCode': [], 'Color488Code': ['XXZZ'], 'Color666ToricCode': ['X3Z3'],
+    'Toric3DCode': ['XZZX'], 'Planar3DCode': ['XZZX'], 'RotatedPlanar3DCode': ['XZZX'], 'XCubeCode': ['XZZX'],
+    'RhombicToricCode': ['Checkerboard XZZX'], 'RhombicPlanarCode': ['Checkerboard XZZX'],
+    'HollowRhombicCode': ['Checkerboard XZZX'], 'HollowPlanar3DCode': [],
+}
 # decoder -> allowed code classes (None = any); fixed a priori from the documented allowed_codes
 DECODER_CODES = {
     'MatchingDecoder': ['Toric2DCode', 'Planar2DCode', 'RotatedPlanar2DCode'],
@@ -81,8 +107,8 @@ SIZES_2D = ['3x3', '3x3,5x5']
 SIZES_3D = ['2x3x4,3x3x3']
 BIASES = ['X', 'Y', 'Z']
 ETAS = ['0.5', '10', 'inf', '0.5,10', '1,3,inf', '2,2.5,30']      # the last: ratios that are close together
-PROBS = ['0.1', '0.05,0.1,0.2', '0.1:0.3:0.1']
-DEFORMATIONS = [None, 'XZZX']
+# single value, lists and ranges; two of them start at an error rate of exactly 0
+PROBS = ['0.1', '0,0.1', '0.05,0.1,0.2', '0.1:0.3:0.1', '0:0.1:0.05']
 METHODS = ['direct', 'splitting']
 LABELS = [None, 'a']
 NOISE = 'PauliErrorModel'
@@ -95,10 +121,9 @@ CHUNK_TRIPLES = 8000   # range triples per case item
 
 BOUNDS = {
     'quick': {
-        'generate': {'code_size_decoder': 'sub-box: Toric2DCode x {3x3; 3x3,5x5} x {MatchingDecoder, '
-                                          'BeliefPropagationOSDDecoder, UnionFindDecoder}; Toric3DCode x '
-                                          '{2x3x4,3x3x3} x {SweepMatchDecoder, BeliefPropagationOSDDecoder}',
-                     'bias': BIASES, 'eta': ETAS, 'prob': PROBS, 'deformation': DEFORMATIONS,
+        'generate': {'code_size_decoder': 'sub-box: the (class, size list, decoder) triples of QUICK_TRIPLES',
+                     'bias': BIASES, 'eta': ETAS, 'prob': PROBS,
+                     'deformation': 'None and every name the class offers (CLASS_DEFORMATIONS)',
                      'method': METHODS, 'label': LABELS, 'noise': [NOISE]},
         'range': {'steps': STEPS_Q, 'max': RANGE_MAX, 'list_len': LIST_LEN},
     },
@@ -110,7 +135,8 @@ BOUNDS = {
                      'mbp_classes': MBP_CLASSES,
                      'classes_2d': DIM2, 'classes_3d': DIM3,
                      'bias': BIASES, 'eta': ETAS, 'prob': PROBS,
-                     'deformation': 'None; XZZX for the classes offering it: ' + ','.join(sorted(HAS_XZZX)),
+                     'deformation': 'None and every name the class offers', 'class_deformations': CLASS_DEFORMATIONS,
+                     'own_sizes': DIM3_OWN_SIZES,
                      'method': METHODS, 'label': LABELS, 'noise': [NOISE]},
         'range': {'steps': STEPS_T, 'max': RANGE_MAX, 'list_len': LIST_LEN},
     },
@@ -121,7 +147,8 @@ QUICK_TRIPLES = [
     ('Toric2DCode', '3x3', 'MatchingDecoder'),
     ('Toric2DCode', '3x3', 'BeliefPropagationOSDDecoder'),
     ('Toric2DCode', '3x3', 'UnionFindDecoder'),
-    ('Toric2DCode', '3x3,5x5', 'MatchingDecoder'),
+    # (Toric2DCode, '3x3,5x5', MatchingDecoder) is left to thorough: matcher construction dominates the cost
+    # and two-size Matching lists are exercised by '4,3x5' below
     ('Toric2DCode', '3x3,5x5', 'BeliefPropagationOSDDecoder'),
     ('Toric2DCode', '3x3,5x5', 'UnionFindDecoder'),
     ('Toric3DCode', '2x3x4,3x3x3', 'SweepMatchDecoder'),
@@ -130,7 +157,10 @@ QUICK_TRIPLES = [
     # as in the code constructors (3x5 on a 3-D class is 3x5x3, 4 is 4x4x4 / 4x4)
     ('Toric3DCode', '3x5,4', 'BeliefPropagationOSDDecoder'),
     ('Toric2DCode', '4,3x5', 'MatchingDecoder'),
+    # a class whose deformation name is mixed case with a blank ('Checkerboard XZZX')
+    ('RhombicPlanarCode', '2x3x4,3x3x3', 'BeliefPropagationOSDDecoder'),
 ]
+BOUNDS['quick']['generate']['triples'] = [list(t) for t in QUICK_TRIPLES]
 
 
 # --------------------------------------------------------------------------- case lists
@@ -162,8 +192,19 @@ def _thorough_triples():
         for s in SIZES_3D:
             for dec in _decoders_for(cls, table):
                 out.append((cls, s, dec))
+    for cls, size_lists in DIM3_OWN_SIZES.items():
+        for s in size_lists:
+            for dec in _decoders_for(cls, table):
+                out.append((cls, s, dec))
     out += [t for t in QUICK_TRIPLES if t[1] in ('3x5,4', '4,3x5')]
     return out
+
+
+def _deformations_for(cls):
+    """None plus every documented deformation name the class (still) offers."""
+    from panqec.config import CODES
+    offered = list(getattr(CODES.get(cls), 'deformation_names', []) or [])
+    return [None] + [d for d in CLASS_DEFORMATIONS.get(cls, []) if d in offered]
 
 
 def _dstr(x):
@@ -196,9 +237,7 @@ def cases(tier, seed):
     gen = []
     for cls, sizes, dec in triples:
         for method in METHODS:
-            for deformation in DEFORMATIONS:
-                if deformation is not None and cls not in HAS_XZZX:
-                    continue        # not in the box: the class offers no XZZX deformation
+            for deformation in _deformations_for(cls):
                 for bias in BIASES:
                     # the slow decoder gets one case item per eta list to keep items balanced
                     groups = [[e] for e in ETAS] if dec == 'MemoryBeliefPropagationDecoder' else [ETAS]
@@ -354,6 +393,26 @@ def _one_invocation(case, eta, prob, label, dim):
         if unreadable:
             return problems, info
 
+        # ---- the noise model read back must be usable on the code it is paired with
+        tried = set()
+        for name, s in sims:
+            pair = (id(s.error_model), id(s.code))
+            if pair in tried:
+                continue
+            tried.add(pair)
+            rate = float(s.error_rate) if hasattr(s, 'error_rate') else float(list(s.error_rates)[0])
+            try:
+                with contextlib.redirect_stdout(io.StringIO()):
+                    dist = s.error_model.probability_distribution(s.code, rate)
+                if len(dist) != 4 or any(len(x) != s.code.n for x in dist):
+                    raise ValueError('probability_distribution returned a wrong shape')
+            except Exception as exc:
+                problems.append(('noise-unusable', {
+                    'file': name, 'size': list(s.code.size), 'requested_deformation': deformation,
+                    'read_back_deformation': s.error_model.params.get('deformation_name'),
+                    'exc': type(exc).__name__, 'message': str(exc)[:200]}))
+        info['noise_pairs'] = len(tried)
+
         # ---- multiset comparison: unit = (size index, eta index, rate index)
         units = {}
         sims_per_cell = {}
@@ -375,8 +434,8 @@ def _one_invocation(case, eta, prob, label, dim):
                 problems.append(('unexpected-simulation', dict(where, message='size not requested')))
                 ok = False
             if s.error_model.params.get('deformation_name') != deformation:
-                problems.append(('unexpected-simulation', dict(where, message='deformation %r, requested %r' % (
-                    s.error_model.params.get('deformation_name'), deformation))))
+                problems.append(('deformation-wrong', dict(where, read_back=s.error_model.params.get(
+                    'deformation_name'), requested=deformation)))
                 ok = False
             if type(s.error_model).__name__ != NOISE:
                 problems.append(('unexpected-simulation', dict(where, message='noise class')))
@@ -441,9 +500,9 @@ def _eval_generate(case):
                      'problems_total': 0}}
     cls = case['cls']
     dim = 2 if cls in DIM2 else 3
-    if case['deformation'] is not None and cls not in HAS_XZZX:
-        # the class offers no XZZX deformation: such a specification is a user error, not part of the box
-        res['extra']['outside_box_no_xzzx'] = len(case['etas']) * len(PROBS) * len(LABELS)
+    if case['deformation'] not in _deformations_for(cls):
+        # the class does not offer this deformation: such a specification is a user error, not part of the box
+        res['extra']['outside_box_deformation'] = len(case['etas']) * len(PROBS) * len(LABELS)
         return res
     seen = set()
     emitted = {}
